@@ -29,6 +29,35 @@ with NaN residuals (50 s per channel; ValueError "didn't converge" at tol = 1e-8
 robustness observation outside the property's accuracy statement, reported, not checked.
 The zero initial guess is passed explicitly (ode_params["initial_guess_y"]): the library's default
 is np.random.rand, which makes results irreproducible.
+
+EXTENDED CONFIGURATION SPACE (``PoissonX.tla``, EXTENDS Poisson; MC_PoissonX.cfg re-checks every invariant of
+MC_Poisson.cfg; case ids >= 1000, 240 per seed, 8 kinds).  Exponents, coefficients (both signs), centres, rotation
+seeds and the discrete options of these cases are DRAWN in the specification from stated pools with a hash of
+(XSeed = VERIF_SEED, case, slot); TLC checks every drawn case admissible (envelope, monopole not cancelling, band limit
+ShellExact of pruned shells, unbounded radial range for l > 0 content and for the initial-value route, separations)
+and, in the channel algebra, that the robust solver is affine but not linear in the density (AffineDerived).
+  x_pruned   atomic grids with sector-wise angular degrees (AtomGrid(degrees=[per shell]) and AtomGrid.from_pruned), density
+             s + l = 1 inside the band limit of every shell: bvp / Laplacian against the oracle
+  x_hetmol   2-3 atoms with DIFFERENT radial sizes / maps (Handy2 160 / 180 / 200 points, HandyMod2) and atomic numbers; one
+             ODE transform for all atoms; default (random) initial guess under a fixed NumPy seed; + linearity or Laplacian
+  x_law      V_robust[rho; o] = V_core(oracle) + V_bvp[rho - rho_core(oracle); o] for arbitrary option records o
+             (remove_large_pts 25 / 40 / 60, explicit boundary values, include_origin) and the affine combination law
+  x_defaults nothing / None / {} / the documented defaults written out / remove_large_pts = None give the same potential;
+             initial-value route with other intervals and integrators (RK45, LSODA, DOP853); Laplacian cut_off argument
+  x_forms    density as float32 / list / longdouble / read-only / strided / the same object twice; points as float32 / read-only /
+             Fortran order / strided / longdouble / a single point; atomic grid wrapped as one-atom MolGrid; robust solver with
+             atnums / atcoords / density / points / alphas_basis as lists, int32, float, int; second evaluation of a callable
+  x_pts      evaluation points 1e-6 .. 0.05 from a centre, 8 .. 500 away, and exactly AT the centres (known finding, see
+             known_findings.d/C16.json and gen/proposals/C16-bvp-potential-at-centre.diff)
+  x_tf       further 1-D rules under the Becke map (GaussChebyshev, type 2, FejerFirst, Trapezoidal and ClenshawCurtis, whose
+             grids contain r = 0 and r = 1e16 themselves), LinearFinite / LinearInfinite / HandyMod maps, other Handy parameters
+  x_lin      linearity of the initial-value route and of the Laplacian, weights from a pool with 0 and both signs, two-atom
+             grids; zero density -> zero potential
+Every extended case also checks that the density, the points, the option dictionary and the atom arrays are unchanged.
+Calibration of the new tolerances: XTOL below.  Not covered (see the audit report): include_origin=True with l > 0
+content (solver thrashes, see above), the default r_interval of the initial-value route (integrates below the first radial
+point), points given as Python lists to the plain solvers (AttributeError in AtomGrid.convert_cartesian_to_spherical - the
+parameter is documented as ndarray), float32 densities for the Laplacian (differentiation amplifies the rounding).
 """
 from __future__ import annotations
 
@@ -62,7 +91,36 @@ TOL = {                     # measured worst over all 600 cases, seeds 0/1/2  ->
     "robust_vs_plain": 1.2e-1,  # 3.7e-3 (1.5)
     "lap": 4e-2,            # 1.4e-3   (1.46) interpolate_laplacian vs symbolic Laplacian, 0.3 <= r <= 3
 }
-TOL.update(XTOL := {})
+# ---- clauses of PoissonX.tla (extended configuration space, case ids >= 1000).  Existing clause names (bvp_s, bvp_chan,
+# mol, lin, lap, ivp_s) are reused with their tolerances above; measured worst over the 240 x 3 cases of seeds 0, 1, 2
+# (gen/c16-audit/calib.py, 2026-09-26) for those: bvp_s 5.3e-6, bvp_chan 6.5e-6, lap 9.7e-4, lin 5.6e-9, mol 2.3e-4, ivp_s 1.5e-4
+# (interval / integrator variants; 1.3 orders).  New clauses: measured worst (orders of margin) and what the clause is.
+# Mutants that each new clause detects: selftest below (deviations 1e-7 for the exact classes, 1e-2 .. inf for the others).
+XTOL = {
+    "mol_het": 4e-2,            # 3.2e-4 (2.1)  molecular grids whose atoms differ in radial size / map / atomic number (tolerance of "mol")
+    "lap_het": 4e-2,            # 1.2e-3 (1.5)  Laplacian on such grids (tolerance of "lap")
+    "robust_law": 1e-10,        # 8.1e-16 (5.1)  V_robust[rho; o] - V_core(oracle) - V_bvp[rho - rho_core(oracle); o]: same
+                                #           floating-point operations up to the summation order of the core density
+    "robust_affine": 20 * BVP_TOL,  # 5.4e-8 (2.6)  weights a, 1 - a (tolerance of "lin": derived from the BVP tolerance)
+    "defaults_eq": 1e-10,       # 0 (bitwise)  option records denoting the same call: identical problems, identical meshes
+    "lap_cut": 1e-12,           # 0 (bitwise)  cut_off below every evaluation radius: no effect
+    "form_exact": 1e-12,        # 3.6e-15 (2.4)  PoissonX.tla prec = 12: same numbers in another container / layout / wider dtype
+    "form_single": 1e-5,        # 1.9e-7 (1.7)  prec = 5: argument rounded to float32 (eps = 6e-8)
+    "form_ivp": 3e-3,           # 1.3e-4 (1.4)  initial-value route: both results within ivp_s of the truth (derived)
+    "ivp_tf": 3e-3,             # 1.2e-4 (1.4)  initial-value route on the further rules / maps (tolerance of ivp_s)
+    "lin_ivp": 3e-3,            # 4.4e-5 (1.8)  derived: each of the three solutions is within ivp_s of its truth
+    "lin_lap": 1e-10,           # 2.6e-13 (2.6)  splines and sums are linear: rounding only
+    "zero": 1e-12,              # 0  absolute: zero density -> zero potential
+    "pts_near": 3e-4,           # 6.3e-6 (1.7)  1e-6 (r = 0 in the mesh) / 1e-3 (first point 1e-9) <= r <= 0.05: tolerance of bvp_s
+    "pts_far": 3e-4,            # 1.5e-5 (1.3)  8 <= r <= 500
+    "pts_centre": 3e-4,         # exactly at the centre: KNOWN FINDING (1.0 measured; 2.4e-6 with the proposed repair)
+    "pts_near_mol": 4e-2,       # 1.6e-4 (2.4)  tolerance of "mol"
+    "pts_far_mol": 4e-2,        # 3.5e-4 (2.1)
+    "pts_centre_mol": 4e-2,     # KNOWN FINDING (0.96-1.02 measured; 1e-3 with the proposed repair)
+    "repeat": 1e-15,            # 0 (bitwise)  the same callable evaluated twice on the same points
+    "unchanged": 0.5,           # 0 / 1: an argument was modified by the call
+}
+TOL.update(XTOL)
 
 # Margins are 1.5 orders (not 3) on the sound side because the solvers' own accuracy on these grids is
 # 1e-5..1e-3; the defects targeted (4 pi / sign, r factor, boundary value, l(l+1), weights omitted, core
@@ -739,7 +797,8 @@ def select(cases, tier, rng):
     pick("x_pts", lambda c: len(c["atoms"]) == 2)
     pick("x_tf", lambda c: c["origin"])
     pick("x_tf", lambda c: not c["origin"])
-    pick("x_lin", lambda c: c["solver"] in ("ivp", "lap"))
+    pick("x_lin", lambda c: c["solver"] == "ivp")
+    pick("x_lin", lambda c: c["solver"] == "lap")
     pick("x_lin", lambda c: c["solver"] == "bvp")
     return picked
 
@@ -748,7 +807,12 @@ def run(tier: str, _cases=None) -> int:
     rep = Report(PROP, tier, "exploration")
     rng = random.Random(rep.seed)
     wd = tlc.scratch(f"{PROP}-{tier}")
-    res, cases, orc, table = spec_run(wd, rep.seed)
+    if _G.get("selftest") and _G.get("spec", (None,))[0] == rep.seed:
+        _, res, cases, orc, table = _G["spec"]       # selftest: mutants change the library, not the specification - one TLC run
+    else:
+        res, cases, orc, table = spec_run(wd, rep.seed)
+        if _G.get("selftest"):
+            _G["spec"] = (rep.seed, res, cases, orc, table)
     rep.tlc(res, "MC_PoissonX")
     if res.status == "violation":
         st = tlc.last_state(res)
@@ -889,7 +953,12 @@ def selftest(tier: str = "quick") -> int:
     only = os.environ.get("C16_SELFTEST_ONLY")          # development aid: comma-separated substrings of mutant names
     if only:
         mutants = [m for m in mutants if any(o in m[0] for o in only.split(","))]
-    return run_mutants(PROP, run, tier, mutants, expect={"anti:potential-at-centre-repaired": 0})
+    _G["selftest"] = True
+    try:
+        return run_mutants(PROP, run, tier, mutants, expect={"anti:potential-at-centre-repaired": 0})
+    finally:
+        _G.pop("selftest", None)
+        _G.pop("spec", None)
 
 
 def replay(path: str) -> int:
@@ -900,9 +969,17 @@ def replay(path: str) -> int:
     if cid is None:
         return run(v.get("tier", "quick"))
     from .. import evidence
+    import os
     old = evidence.EVID
     evidence.EVID = tlc.GEN / f"{PROP}-replay-evidence"     # a replay must not overwrite the evidence of the tiers
+    old_seed = os.environ.get("VERIF_SEED")
+    if "seed" in v["case"]:                                  # cases of PoissonX.tla are drawn per seed
+        os.environ["VERIF_SEED"] = str(v["case"]["seed"])
     try:
         return run("thorough", _cases=lambda cases: [c for c in cases if c["id"] == cid])
     finally:
         evidence.EVID = old
+        if old_seed is None:
+            os.environ.pop("VERIF_SEED", None)
+        else:
+            os.environ["VERIF_SEED"] = old_seed
